@@ -72,6 +72,16 @@ deriving Repr
 
 def initS (nEnds : Nat) : SState := ⟨[], 0, 0, [], [], none, List.replicate nEnds none⟩
 
+/-- content of file `f`, if it exists (`np.load`) -/
+def lookupF : List (File × Rat) → File → Option Rat
+  | [], _ => none
+  | (k, v) :: r, f => if k = f then some v else lookupF r f
+
+/-- `os.remove(f)` -/
+def removeF : List (File × Rat) → File → List (File × Rat)
+  | [], _ => []
+  | (k, v) :: r, f => if k = f then removeF r f else (k, v) :: removeF r f
+
 /-- `_pack`: spill iff `memory_limit is not None and 0 <= memory_limit < _total_mem + nbytes` -/
 def spills (c : Cfg) (total : Int) (size : Nat) : Bool :=
   match c.limit with
@@ -90,14 +100,14 @@ def pack (c : Cfg) (s : SState) (v : Rat) (size : Nat) : SState × Stored :=
 def unpack (c : Cfg) (fs : List (File × Rat)) : Stored → Except Err Rat
   | .inRam v _ => .ok v
   | .onDisk f _ =>
-    match fs.lookup f with
+    match lookupF fs f with
     | none => .error .other
     | some v => if c.unpackUnits = c.inUnits then .ok v else .error .dataErr
 
 /-- one `data.pop(0)` of an eviction loop: `os.remove(d[1])` or `_total_mem -= d[1].nbytes` -/
 def dropEntry (total : Int) (fs : List (File × Rat)) : Stored → Except Err (Int × List (File × Rat))
   | .inRam _ size => .ok (total - size, fs)
-  | .onDisk f _ => if (fs.lookup f).isSome then .ok (total, fs.filter (fun p => p.1 ≠ f)) else .error .other
+  | .onDisk f _ => if (lookupF fs f).isSome then .ok (total, removeF fs f) else .error .other
 
 /-- `while len(data) > 1 and data[1][0] <= t: d = data.pop(0); remove / account` -/
 def evictS : List (Entry Stored) → Int → List (File × Rat) → Int →
@@ -116,7 +126,7 @@ def finalizeFs : List (Entry Stored) → List (File × Rat) → Except Err (List
   | e :: es, fs =>
     match e.v with
     | .inRam _ _ => finalizeFs es fs
-    | .onDisk f _ => if (fs.lookup f).isSome then finalizeFs es (fs.filter (fun p => p.1 ≠ f)) else .error .other
+    | .onDisk f _ => if (lookupF fs f).isSome then finalizeFs es (removeF fs f) else .error .other
 
 /-! ### Read paths on stored entries (`u` = `self._unpack`) -/
 
